@@ -51,6 +51,26 @@ func runCLI(c Case) string {
 		stdin = []byte(input)
 		outPath = filepath.Join(dir, "out.sql")
 		args = []string{"-o", outPath}
+	case strings.HasPrefix(mode, "filesM:"):
+		// filesM:k  two pieces with k EMPTY files between them (bufio.Scanner gives up after 100
+		// consecutive reads that return no data and no error: the multi-reader must not produce them)
+		var k int
+		fmt.Sscanf(mode[7:], "%d", &k)
+		empty := filepath.Join(dir, "empty.pql")
+		os.WriteFile(empty, nil, 0o644)
+		cut := len(input) / 2
+		if j := strings.Index(input, ";\n"); j >= 0 {
+			cut = j + 2
+		}
+		p0 := filepath.Join(dir, "in0.pql")
+		p1 := filepath.Join(dir, "in1.pql")
+		os.WriteFile(p0, []byte(input[:cut]), 0o644)
+		os.WriteFile(p1, []byte(input[cut:]), 0o644)
+		args = append(args, p0)
+		for i := 0; i < k; i++ {
+			args = append(args, empty)
+		}
+		args = append(args, p1)
 	case strings.HasPrefix(mode, "filesE:"), strings.HasPrefix(mode, "filesD:"):
 		// filesE:k  k pieces with an empty file before, between and after them
 		// filesD:k  k pieces, the middle one read from standard input through "-"
@@ -189,6 +209,11 @@ func genCLICases(tier string, emit func(op string, fields ...string)) {
 	}
 	for i := 0; i < n; i++ {
 		emit("CLI", hexs(genScript()), pick(modes))
+	}
+	for _, s := range []string{"let n = 5;\nT | take n;\nT | where a > n | count\n", "T | count;\nU | count;\n", "T | count"} {
+		for _, k := range []string{"filesM:1", "filesM:99", "filesM:100", "filesM:150"} {
+			emit("CLI", hexs(s), k)
+		}
 	}
 	// very long lines around the 64 KiB scanner limit
 	for _, l := range []int{65534, 65535, 65536, 65537, 70000} {
